@@ -1,5 +1,5 @@
 ENGINES = [
- {"name": "enumcheck", "path": "/verif/harness", "serves_properties": ["C17"], "kind_free_text": "bounded-exhaustive enumeration of inputs/programs through the real API (virtual test package inside module grog), compared with a reference model on every case"},
+ {"name": "enumcheck", "path": "/verif/harness", "serves_properties": ["C09", "C17"], "kind_free_text": "bounded-exhaustive enumeration of inputs/programs through the real API (virtual test package inside module grog), compared with a reference model on every case"},
 ]
 NOTES = "All checks are run by /verif/build/vcheck, rebuild from /repo's working tree via go -overlay, and write /verif/evidence/<id>.json themselves. known_findings.json lists genuine defects (open = reported as KNOWN-FINDING, fixed = suppresses nothing)."
 NOT_APPLICABLE = {}
@@ -8,3 +8,8 @@ chk("C17", "enumcheck", "bounded-exhaustive enumeration of all token strings (<=
     "Every label/pattern string of up to 5 (quick) or 6 (thorough) tokens over a 9-token alphabet is parsed by the real API from every current package and matched against a 24-label universe; documented strings must agree exactly with a reference written from the documentation, all strings must satisfy the print/re-parse invariants and never panic. Exhaustive within that bound, which contains every shortcut visible in the parser (shorthand, relative, recursive with and without prefix, :all, :..., trailing and repeated slashes).",
     "Trusted: the reference parser (about 100 lines, written from docs/reference/labels.md). Strings outside the alphabet or longer than the bound are not covered.",
     "DESIGN.md 4 C17")
+
+chk("C09", "enumcheck", "bounded-exhaustive enumeration of families of target states (all splits of strings <=3/4 chars across every component boundary, all permutations) through the real hashing API under xxh3 and sha256, all pairs compared via key/canonical-state grouping",
+    "Every pair of states inside each family must satisfy key(s1)=key(s2) <=> canonical(s1)=canonical(s2). Families are built around each adjacency of the hashed byte stream, each list separator, each permutation, the workspace location, the platform, map iteration order, dependency digests reached directly or through aliases, and the output hash of result protos. Exhaustive over those families.",
+    "Trusted: the canonical tuple (JSON encoding of the statement's components). Collisions are demanded to reproduce under both hash algorithms. Strings outside the 4-character alphabet {a , = :} and longer than the bound are not covered.",
+    "DESIGN.md 4 C09")
